@@ -9,6 +9,7 @@ from ..data_container import DataContainer
 from ..linalg.rotation import promax
 from ..preprocessing import Preprocessor
 from ..utils.data_types import DataArray
+from ..utils.sanity_checks import sanity_check_n_modes
 from ..utils.xarray_utils import argsort_dask, get_deterministic_sign_multiplier
 from .eof import EOF, ComplexEOF, HilbertEOF
 
@@ -62,6 +63,7 @@ class EOFRotator(EOF):
         rtol: float = 1e-8,
         compute: bool = True,
     ):
+        sanity_check_n_modes(n_modes)
         if max_iter is None:
             max_iter = 1000 if compute else 100
 
